@@ -6,6 +6,9 @@ From Coq Require Import ZArith NArith List Bool Lia Arith ZifyBool ZifyN ZifyNat
 Import ListNotations.
 Require Import SR.Base.Res SR.Gen.RecfmParams SR.Spec.Recfm SR.Model.Recfm SR.Proofs.RecfmP.
 Require Import SR.Spec.Layout SR.Model.Layout SR.Spec.OdoStream SR.Model.OdoStream.
+(* the unfolding equations of the walk under the rules read from the source (Gen/LayoutParams.v) are proved once, in
+   Proofs/LayoutP.v; required without Import: this file has its own names *)
+Require SR.Proofs.LayoutP.
 Open Scope nat_scope.
 
 Notation lwalk := SR.Model.Layout.walk.
@@ -46,7 +49,7 @@ Variable r : list B.
 
 Lemma walk_atom a sz st an :
   lwalk dcount r (JAtom a sz) st an = Ok (LAtom st sz, reg a (LAtom st sz) an).
-Proof. reflexivity. Qed.
+Proof. apply SR.Proofs.LayoutP.walk_atom. Qed.
 
 Lemma walk_arr a n its st an :
   lwalk dcount r (JArr a n its) st an =
@@ -54,7 +57,7 @@ Lemma walk_arr a n its st an :
   | Err e => Err e
   | Ok (sub, an1) => Ok (LArr st (lsize sub * n) (lsize sub) n sub its, reg a (LArr st (lsize sub * n) (lsize sub) n sub its) an1)
   end.
-Proof. reflexivity. Qed.
+Proof. apply SR.Proofs.LayoutP.walk_arr. Qed.
 
 Lemma walk_odo a c its st an :
   lwalk dcount r (JOdo a c its) st an =
@@ -69,7 +72,7 @@ Lemma walk_odo a c its st an :
       end
   | Some _ => Err TypeError
   end.
-Proof. reflexivity. Qed.
+Proof. apply SR.Proofs.LayoutP.walk_odo. Qed.
 
 Lemma walk_obj a ps st an :
   lwalk dcount r (JObj a ps) st an =
@@ -77,10 +80,10 @@ Lemma walk_obj a ps st an :
   | Err e => Err e
   | Ok (pls, off, an1) => Ok (LObj st (off - st) pls, reg a (LObj st (off - st) pls) an1)
   end.
-Proof. reflexivity. Qed.
+Proof. apply SR.Proofs.LayoutP.walk_obj. Qed.
 
 Lemma walk_props_nil off an : walk_props dcount r PNil off an = Ok (LPNil, off, an).
-Proof. reflexivity. Qed.
+Proof. apply SR.Proofs.LayoutP.walk_props_nil. Qed.
 
 Lemma walk_props_cons k p rest off an :
   walk_props dcount r (PCons k p rest) off an =
@@ -92,7 +95,7 @@ Lemma walk_props_cons k p rest off an :
       | Ok (rl, off', an2) => Ok (LPCons k pl rl, off', an2)
       end
   end.
-Proof. reflexivity. Qed.
+Proof. apply SR.Proofs.LayoutP.walk_props_cons. Qed.
 
 Lemma kid_alts_cons tg x xs : kid_alts tg (ICons x xs) = (item_id x, union_of tg x, build_alt x) :: kid_alts tg xs.
 Proof. reflexivity. Qed.
@@ -580,7 +583,7 @@ Lemma nav_flat {B} (dcount : list B -> nat) t e r :
 Proof.
   intros Hf Hc. destruct (flat_odo_inv t Hf) as (i0 & rd & kids & -> & Hk & Hnd).
   cbn [counters_hold] in Hc. rewrite (build_flat i0 rd kids Hk).
-  unfold nav_of. rewrite walk_obj.
+  rewrite SR.Proofs.LayoutP.nav_of_unf. rewrite walk_obj.
   rewrite (walk_flat_kids dcount r e (fun c => In c (counters_of kids)) kids [] 0 [] Hk).
   - cbn [reg flat_nav]. replace (0 + fsize e kids - 0) with (fsize e kids) by lia. reflexivity.
   - intros c [].
@@ -595,7 +598,7 @@ Lemma nav_name_floc e x o a b ps an k :
   find_prop k ps = Some (floc e x o) ->
   nav_name (mknav (LObj a b ps) an) k = Ok (mknav (floc e x o) an).
 Proof.
-  intros H. unfold nav_name. cbn [n_loc n_an]. rewrite H. unfold floc. destruct (plain_elem x); reflexivity.
+  intros H. rewrite SR.Proofs.LayoutP.nav_name_unf. cbn [n_loc n_an]. rewrite H. unfold floc. destruct (plain_elem x); reflexivity.
 Qed.
 
 Lemma is_table_not_plain x : is_table x = true -> plain_elem x = false.
@@ -637,11 +640,11 @@ Proof.
     pose proof (occ_sz_ext e earlier' x Hx) as Hosz.
     unfold floc. rewrite Hnp. split; [|split].
     + exists (occ_loc x o), (items_js x). rewrite Hosz. unfold extent. f_equal. lia.
-    + intros i Hi. unfold nav_index. cbn [n_loc].
+    + intros i Hi. rewrite SR.Proofs.LayoutP.nav_index_unf. cbn [n_loc].
       destruct (count e (item_oc x) <=? i) eqn:E; [apply Nat.leb_le in E; lia|].
       rewrite (walk_items dcount r x _ [] Hshape).
       eexists. split; [reflexivity|]. cbn [n_loc]. rewrite lstart_occ_loc, lsize_occ_loc, Hosz. split; [lia|reflexivity].
-    + intros i Hi. unfold nav_index. cbn [n_loc].
+    + intros i Hi. rewrite SR.Proofs.LayoutP.nav_index_unf. cbn [n_loc].
       destruct (count e (item_oc x) <=? i) eqn:E; [reflexivity|apply Nat.leb_gt in E; lia].
 Qed.
 
@@ -712,18 +715,18 @@ Proof.
   split; [cbn [flat_nav]; apply nav_name_floc; exact Hfp|].
   pose proof (is_table_not_plain x Ht) as Hnp.
   destruct (flat_kid_shape earlier' x Hx Hnp) as [Hshape _].
-  intros i Hi. unfold nav_index, floc. rewrite Hnp. cbn [n_loc].
+  intros i Hi. rewrite SR.Proofs.LayoutP.nav_index_unf. unfold floc. rewrite Hnp. cbn [n_loc].
   destruct (count e (item_oc x) <=? i) eqn:E; [apply Nat.leb_le in E; lia|].
   rewrite (walk_items dcount r x _ [] Hshape). eexists. split; [reflexivity|].
   destruct x as [n sz oc rd'|g oc rd' gks].
   - cbn [occ_loc occ_sz occ_anch]. eexists. split.
-    + unfold nav_name. cbn [n_loc n_an find_prop]. rewrite key_eqb_name, N.eqb_refl. reflexivity.
+    + rewrite SR.Proofs.LayoutP.nav_name_unf. cbn [n_loc n_an find_prop]. rewrite key_eqb_name, N.eqb_refl. reflexivity.
     + cbn [n_loc]. f_equal. lia.
   - cbn [table_shape] in Hshape. intros j y Hj.
     destruct (pprops_find e gks (o + occ_sz (Group g oc rd' gks) * i) 0 j y Hshape Hj) as (oj & Hkj & Hpj).
     exists oj. eexists. split; [rewrite (kid_start_kstart e gks j (all_plain_flat gks [] Hshape)); exact Hkj|].
     split.
-    + unfold nav_name. cbn [occ_loc n_loc n_an]. rewrite Hpj. reflexivity.
+    + rewrite SR.Proofs.LayoutP.nav_name_unf. cbn [occ_loc n_loc n_an]. rewrite Hpj. reflexivity.
     + cbn [n_loc]. f_equal. rewrite (occ_sz_ext e earlier' _ Hx). lia.
 Qed.
 
